@@ -103,3 +103,32 @@ Theorem C04_ternary_fast_flip_semantics : forall A B C fa fb fc fo op,
                                   (eval C (oflip fc (oflip fo v))).
 Proof. exact fused_ternary_flip_op_faithful_fast_correct. Qed.
 Print Assumptions C04_ternary_fast_flip_semantics.
+
+(* the explicit-stack loop of `ternary_apply` modelled iteration by iteration (Model/Apply3Stack.v): at API level (the
+   argument checks are part of the function) it returns the outcome of the order-faithful engine for valid operands and
+   any table that answers on total inputs — whatever the four flips are — hence the same flip semantics and panics *)
+From BddVerif Require Model.Apply3Stack Proofs.Apply3Stack.
+
+Theorem C04_ternary_stack_machine_refines : forall A B C fa fb fc fo op,
+  wf A -> wf B -> wf C -> total3 op ->
+  Apply3Stack.fused_ternary_flip_op_stack A B C fa fb fc fo op = fused_ternary_flip_op_faithful A B C fa fb fc fo op.
+Proof. exact Proofs.Apply3Stack.fused_ternary_flip_op_stack_eq. Qed.
+Print Assumptions C04_ternary_stack_machine_refines.
+
+Theorem C04_ternary_stack_machine_flip_semantics : forall A B C fa fb fc fo op,
+  wf A -> wf B -> wf C -> nvars A = nvars B -> nvars B = nvars C ->
+  (flip_ok (nvars A) fa && flip_ok (nvars A) fb && flip_ok (nvars A) fc && flip_ok (nvars A) fo = true) ->
+  total3 op -> consistent3 op ->
+  exists r, Apply3Stack.fused_ternary_flip_op_stack A B C fa fb fc fo op = Ok r /\ Canonical r /\ nvars r = nvars A /\
+    forall v, eval r v = conn3 op (eval A (oflip fa (oflip fo v))) (eval B (oflip fb (oflip fo v)))
+                                  (eval C (oflip fc (oflip fo v))).
+Proof. exact Proofs.Apply3Stack.fused_ternary_flip_op_stack_correct. Qed.
+Print Assumptions C04_ternary_stack_machine_flip_semantics.
+
+(* no hypotheses at all: the machine panics exactly on the argument checks *)
+Theorem C04_ternary_stack_machine_flip_bounds : forall A B C fa fb fc fo op,
+  Apply3Stack.fused_ternary_flip_op_stack A B C fa fb fc fo op = Panic <->
+  (~ (nvars A = nvars B /\ nvars B = nvars C) \/
+   flip_ok (nvars A) fa && flip_ok (nvars A) fb && flip_ok (nvars A) fc && flip_ok (nvars A) fo = false).
+Proof. exact Proofs.Apply3Stack.fused_ternary_flip_op_stack_panic_iff. Qed.
+Print Assumptions C04_ternary_stack_machine_flip_bounds.
